@@ -157,7 +157,7 @@ EVENTS = [
     (ev(test_status="skip", timestamp=None), None, False),
     (ev(test_status="xfail", test_tags=("x", "t"), timestamp=None), "set", "all"),
     (ev(test_status="fail", route_code="9", runnable=False), None, True),
-    (ev(file_name="f", file_bytes=b"x", eof=True, mime_type="text/plain", route_code="8/7"), None, False),
+    (ev(file_name="f", file_bytes=b"x", eof=True, mime_type="text/plain", route_code="0/7"), None, False),  # (begins with "0", which is also a queue's own code)
     (ev(test_id=None, file_name="g", file_bytes=b"", timestamp=None), None, False),
     (ev(test_status="exists", test_tags=("y",)), "frozenset", False),
     (ev(test_status="success", test_tags=("t",)), "set", "all"),
